@@ -402,6 +402,9 @@ func (e *Exec) nextTimer() *timer {
 		if !tm.armed {
 			continue
 		}
+		if tm.deadline-e.now > int64(50*365*24*time.Hour) {
+			continue // armed "forever" (e.g. Reset(math.MaxInt64)): never fires
+		}
 		if best == nil || tm.deadline < best.deadline || (tm.deadline == best.deadline && tm.seq < best.seq) {
 			best = tm
 		}
